@@ -5,6 +5,7 @@
 # then (phase "mid": sleep / gate / rendezvous / fault), then "END <id>".
 # Own start/end lines go to $VERIF_CMDLOG ("S|M|E <epoch> <pid> <proc:sig>").
 proc=$1; sig=$2; shift 2
+sig=${sig//.txt.fifo/}     # an input read through a FIFO is named like the file it stands for
 outs=(); ins=(); params=(); mode=""
 for a in "$@"; do
   case "$a" in
